@@ -232,6 +232,13 @@ def derived(ctx: Ctx, n, salt):
                 if mg.kind(a) in ("MarkerUnion", "MultiMarker") and any(mg.kind(c) in ("MarkerUnion", "MultiMarker") for c in a.markers):
                     break
                 ta, a = rng.choice(parsed)
+        elif rng.random() < 0.18 and mg.kind(a) in ("MarkerUnion", "MultiMarker"):
+            # overlapping compounds: the second operand shares a child with the first (deduplication across nested compounds)
+            c = rng.choice(list(a.markers))
+            (td, d) = rng.choice(parsed)
+            ok, b2 = safe(ctx, "derive", lambda: (c | d) if rng.random() < 0.6 else (c & d))
+            if ok:
+                tb, b = f"[child {c} of the left operand] |& [{td}]", b2
         elif rng.random() < 0.1:
             # an operand that is itself a (possibly empty / universal) result
             (tc, c), (td, d) = rng.choice(parsed), rng.choice(parsed)
@@ -710,7 +717,27 @@ CORPUS_TEXTS = [
     'os_name == "nt" and (sys_platform == "linux" or python_version >= "3.8")',
     'python_full_version < "3.0" or python_full_version >= "4.0"',
 ]
+def _group_stress():
+    """every combination of two ==-groups / !=-groups / atoms over ONE variable, joined by and / or"""
+    out = []
+    for v, (a, b, c) in (("sys_platform", ("linux", "darwin", "win32")), ("os_name", ("nt", "posix", "java"))):
+        E1, E2 = f'{v} == "{a}" or {v} == "{b}"', f'{v} == "{b}" or {v} == "{c}"'
+        N1, N2 = f'{v} != "{a}" and {v} != "{b}"', f'{v} != "{b}" and {v} != "{c}"'
+        atoms = [f'{v} == "{a}"', f'{v} != "{c}"', f'{v} in "{a} {c}"', f'{v} not in "{b}"', f'"{a[:2]}" in {v}']
+        groups = [E1, E2, N1, N2]
+        for x in groups:
+            for y in groups + atoms:
+                if x != y:
+                    out += [f"({x}) and ({y})", f"({x}) or ({y})"]
+    return out
+
+
+CORPUS_TEXTS = CORPUS_TEXTS + _group_stress()
+
 CORPUS_PAIRS = [
+    # two unions sharing a child, with version atoms that inflate cnf/dnf so that union() returns its raw candidate
+    ('(python_version in "3.6, 3.7" and extra != "a") or extra == "b"', 'extra == "b" or (sys_platform == "darwin" and python_full_version < "3.7.2")'),
+    ('(python_version in "3.6, 3.7" and os_name != "nt") or os_name == "posix"', 'os_name == "posix" or (sys_platform == "linux" and python_full_version >= "3.7.1")'),
     ('python_version >= "3.8"', 'python_full_version >= "3.9a1"'),            # from_specifier padding of a suffixed operand (fixed e817af8)
     ('python_version >= "3.8"', 'python_full_version > "3.9rc1"'),
     ('python_version < "3.12"', 'python_full_version >= "3.9.dev0"'),
